@@ -207,6 +207,9 @@ def load_function(path, qual):
     node = tree
     parts = [p for p in qual.split(".") if p != "<locals>"]
     lam = None
+    cut = None
+    if parts and parts[-1].startswith("<from:"):
+        cut = parts.pop()[6:-1]          # <from:NAME>: the statements of the function from the first top-level assignment to NAME to the end
     if parts and parts[-1].startswith("<op:"):
         lam = parts.pop()[4:-1]          # <op:SYMBOL/ARITY[/FIXITY][#N]/KEYWORD>  e.g. <op:+/2/to_terms>, <op:~/2#1/to_terms>
     for p in parts:
@@ -272,8 +275,58 @@ def load_function(path, qual):
             node = fd
         else:
             raise LookupError(f"{path}::{qual}: keyword {kwname} is neither a lambda nor a name")
+    if cut is not None:
+        node = _tail_of(node, cut, f"{path}::{qual}")
     h = hashlib.sha256(ast.dump(node).encode()).hexdigest()[:16]
     return node, h
+
+
+def _tail_of(fn, name, where):
+    """Mechanical extraction of the tail of a function body: the top-level statements from the first assignment to `name` to the end, as a
+    function whose parameters are the names the tail reads that the dropped prefix binds (parameters of the original function and names
+    stored in the prefix), in order of first use.  What is dropped: the prefix; the tail is verified for EVERY value of those names that
+    satisfies the contract's `requires` (so the contract's preconditions are assumptions about the prefix)."""
+    def stores(stmt):
+        tg = stmt.targets if isinstance(stmt, ast.Assign) else [stmt.target] if isinstance(stmt, (ast.AnnAssign, ast.AugAssign)) else []
+        return {t.id for t in tg if isinstance(t, ast.Name)}
+
+    at = next((i for i, s_ in enumerate(fn.body) if name in stores(s_)), None)
+    if at is None:
+        raise LookupError(f"{where}: no top-level assignment to `{name}` in the current working tree")
+    prefix, tail = fn.body[:at], fn.body[at:]
+    a = fn.args
+    bound = [x.arg for x in a.posonlyargs + a.args + a.kwonlyargs] + [x.arg for x in (a.vararg, a.kwarg) if x is not None]
+    for s_ in prefix:
+        for x in ast.walk(s_):
+            if isinstance(x, ast.Name) and isinstance(x.ctx, ast.Store) and x.id not in bound:
+                bound.append(x.id)
+    used, defined = [], set()
+    for s_ in tail:
+        for x in ast.walk(s_):
+            if isinstance(x, ast.Name) and isinstance(x.ctx, ast.Load) and x.id in bound and x.id not in used:
+                used.append(x.id)
+    # a name stored by the tail before any read still counts as read if it is read anywhere (conservative: it becomes a parameter only
+    # when the prefix binds it too)
+    first_store = {}
+    for s_ in tail:
+        for x in ast.walk(s_):
+            if isinstance(x, ast.Name) and isinstance(x.ctx, ast.Store):
+                first_store.setdefault(x.id, (x.lineno, x.col_offset))
+    params = []
+    for nm in used:
+        loads = [(x.lineno, x.col_offset) for s_ in tail for x in ast.walk(s_) if isinstance(x, ast.Name) and isinstance(x.ctx, ast.Load) and x.id == nm]
+        if nm in first_store and first_store[nm] < min(loads) and nm == name:
+            continue                      # the cut variable itself: (re)bound by the first statement of the tail
+        params.append(nm)
+    fd = ast.FunctionDef(name=f"{fn.name}__from_{name}", args=ast.arguments(posonlyargs=[], args=[ast.arg(arg=p_) for p_ in params], kwonlyargs=[], kw_defaults=[], defaults=[]),
+                         body=tail, decorator_list=[], returns=None, type_comment=None)
+    try:
+        fd.type_params = []
+    except Exception:
+        pass
+    ast.copy_location(fd, tail[0])
+    ast.fix_missing_locations(fd)
+    return fd
 
 
 # --------------------------------------------------------------------------- verification driver
@@ -324,20 +377,41 @@ def verify_function(eng):
         finally:
             eng.spec_mode = False
     # ghost predicate definitions over the entry state: name -> (int parameter names, body clause)
-    for nm, (pnames, body) in c.defs.items():
-        dfn = z3.Function(f"def!{nm}", *([z3.IntSort()] * len(pnames)), z3.BoolSort())
+    def _mk(f_, rty_):
+        return lambda eng_, args, kw, n, st_: V(rty_, f_(*[a.t for a in args]))
+
+    dfns = {}
+    for nm, d_ in c.defs.items():
+        # (int parameter names, body clause[, result type]): Bool by default; a typed definition may be recursive (it is then a spec
+        # FUNCTION given by its defining equation, e.g. the Cox-de Boor recursion) and may use the definitions declared before it
+        rty = parse_ty(d_[2]) if len(d_) > 2 else TBool
+        dfns[nm] = (z3.Function(f"def!{nm}", *([z3.IntSort()] * len(d_[0])), rty.sort()), rty)
+        st.env[nm] = _mk(*dfns[nm])
+    for nm, d_ in c.defs.items():
+        pnames, body = d_[0], d_[1]
+        dfn, rty = dfns[nm]
         bound = [z3.Int(f"{p}!d{nm}") for p in pnames]
         saved = dict(st.env)
         for p, b in zip(pnames, bound):
             st.env[p] = V(TInt, b)
-        bt = eng.spec_bool(body, st)
+        import re as _re
+        if _re.search(rf"\b{nm}\(", body):
+            # recursive definition: one unfolding per occurrence (the "fuel" encoding of Dafny/Boogie) - the body refers to a synonym
+            # nm!0 of the function, with  forall args: nm(args) == nm!0(args)  triggered on nm(args) only, so that instantiating the defining
+            # equation does not create new instances of itself (no matching loop)
+            low = z3.Function(f"def!{nm}!0", *([z3.IntSort()] * len(pnames)), rty.sort())
+            st.env[nm] = _mk(low, rty)
+            st.assume(z3.ForAll(bound, dfn(*bound) == low(*bound), patterns=[dfn(*bound)]))
+        if rty is TBool:
+            bt = eng.spec_bool(body, st)
+        else:
+            eng.spec_mode = True
+            try:
+                bt = eng.coerce(eng.ev(parse_clause(body), st), rty, fn).t
+            finally:
+                eng.spec_mode = False
         st.env = saved
         st.assume(z3.ForAll(bound, dfn(*bound) == bt, patterns=[dfn(*bound)]))
-
-        def _mk(f_):
-            return lambda eng_, args, kw, n, st_: V(TBool, f_(*[a.t for a in args]))
-
-        st.env[nm] = _mk(dfn)
     if c.yield_type is not None:
         from .types import TSeq as _TS
         from . import seqs as _SQ
